@@ -1,5 +1,5 @@
 // auto-generated: "lalrpop 0.23.1"
-// sha3: e384f71fa437337081976bc05fd0ce1831c90bfb0b914b3a6f7c78798601a46d
+// sha3: be6fa63430dae5a71ecc185be69aabfb5e2d2a18a97244b14e9023e32e46c3eb
 use crate::rt::*;
 #[allow(unused_extern_crates)]
 extern crate lalrpop_util as __lalrpop_util;
@@ -10,7 +10,7 @@ extern crate alloc;
 
 #[rustfmt::skip]
 #[allow(explicit_outlives_requirements, non_snake_case, non_camel_case_types, unused_mut, unused_variables, unused_imports, unused_parens, clippy::needless_lifetimes, clippy::type_complexity, clippy::needless_return, clippy::too_many_arguments, clippy::match_single_binding, clippy::clone_on_copy, clippy::unit_arg)]
-mod __parse__S {
+mod __parse__P {
 
     use crate::rt::*;
     #[allow(unused_extern_crates)]
@@ -29,38 +29,58 @@ mod __parse__S {
     }
     const __ACTION: &[i8] = &[
         // State 0
-        2, 0, 0,
+        -6, 0, 0, -6, 0, -6, 0, 0, 0,
         // State 1
-        3, 9, 0,
+        12, 0, 0, 3, 0, 13, 0, 0, 0,
         // State 2
-        0, 9, 0,
+        -6, 0, 0, -6, -6, -6, 0, 0, 0,
         // State 3
-        5, 9, 0,
+        15, 0, 0, 0, 0, 0, 0, 7, 0,
         // State 4
-        0, 9, 0,
+        15, 0, 0, 0, 0, 0, 0, 7, 0,
         // State 5
-        0, 0, 7,
+        12, 0, 0, 3, 17, 13, 0, 0, 0,
         // State 6
-        4, 0, 0,
+        15, 0, 0, 0, 0, 0, 0, 7, 0,
         // State 7
-        0, 0, -3,
+        12, 0, 0, 3, 0, 13, 0, 0, 0,
         // State 8
-        0, 0, -9,
+        12, 0, 0, 3, 0, 13, 0, 0, 0,
         // State 9
-        0, 0, -4,
+        0, 0, 0, 0, 0, 0, 0, 0, 0,
         // State 10
-        0, 0, -5,
+        -7, 0, 0, -7, -7, -7, 0, 0, 0,
         // State 11
-        0, 0, -6,
+        0, 4, 0, 0, 0, 0, 0, 0, 0,
+        // State 12
+        0, 0, 0, 0, 0, 0, 0, 5, 0,
+        // State 13
+        0, 0, 18, 0, 0, 0, 0, 0, 0,
+        // State 14
+        0, 0, -3, 0, 0, 0, 0, 0, -3,
+        // State 15
+        0, 0, 0, 0, 0, 0, 0, 0, 8,
+        // State 16
+        -9, 0, 0, -9, -9, -9, -9, 0, 0,
+        // State 17
+        -8, 0, 0, -8, -8, -8, -8, 0, 0,
+        // State 18
+        0, 0, 0, 0, 0, 0, 0, 0, 20,
+        // State 19
+        0, 0, -4, 0, 0, 0, 0, 0, -4,
+        // State 20
+        0, 0, 0, 0, 0, 0, 9, 0, 0,
+        // State 21
+        -10, 0, 0, -10, -10, -10, -10, 0, 0,
     ];
     fn __action(state: i8, integer: usize) -> i8 {
-        __ACTION[(state as usize) * 3 + integer]
+        __ACTION[(state as usize) * 9 + integer]
     }
     const __EOF_ACTION: &[i8] = &[
         // State 0
-        0,
+        -6,
         // State 1
-        0,
+        -5,
         // State 2
         0,
         // State 3
@@ -68,37 +88,71 @@ mod __parse__S {
         // State 4
         0,
         // State 5
-        -10,
+        0,
         // State 6
         0,
         // State 7
-        -3,
+        0,
         // State 8
-        -9,
+        0,
         // State 9
-        -4,
+        -11,
         // State 10
-        -5,
+        -7,
         // State 11
-        -6,
+        0,
+        // State 12
+        0,
+        // State 13
+        0,
+        // State 14
+        0,
+        // State 15
+        0,
+        // State 16
+        -9,
+        // State 17
+        -8,
+        // State 18
+        0,
+        // State 19
+        0,
+        // State 20
+        0,
+        // State 21
+        -10,
     ];
     fn __goto(state: i8, nt: usize) -> i8 {
         match nt {
-            2 => 5,
+            2 => match state {
+                4 => 15,
+                6 => 18,
+                _ => 13,
+            },
+            3 => 9,
             4 => match state {
-                2 => 9,
-                3 => 10,
-                4 => 11,
-                _ => 7,
+                2 => 5,
+                _ => 1,
+            },
+            5 => match state {
+                7 => 20,
+                8 => 21,
+                _ => 10,
             },
             _ => 0,
         }
     }
     #[allow(clippy::needless_raw_string_hashes)]
     const __TERMINAL: &[&str] = &[
-        r###""x""###,
-        r###""y""###,
-        r###""z""###,
+        r###""id""###,
+        r###""=""###,
+        r###"";""###,
+        r###""{""###,
+        r###""}""###,
+        r###""if""###,
+        r###""else""###,
+        r###""(""###,
+        r###"")""###,
     ];
     fn __expected_tokens(__state: i8) -> alloc::vec::Vec<alloc::string::String> {
         __TERMINAL.iter().enumerate().filter_map(|(index, terminal)| {
@@ -165,7 +219,7 @@ mod __parse__S {
 
         #[inline]
         fn error_action(&self, state: i8) -> i8 {
-            __action(state, 3 - 1)
+            __action(state, 9 - 1)
         }
 
         #[inline]
@@ -234,6 +288,12 @@ mod __parse__S {
             Tok('a', _, _, _) if true => Some(0),
             Tok('b', _, _, _) if true => Some(1),
             Tok('c', _, _, _) if true => Some(2),
+            Tok('d', _, _, _) if true => Some(3),
+            Tok('e', _, _, _) if true => Some(4),
+            Tok('f', _, _, _) if true => Some(5),
+            Tok('g', _, _, _) if true => Some(6),
+            Tok('h', _, _, _) if true => Some(7),
+            Tok('i', _, _, _) if true => Some(8),
             _ => None,
         }
     }
@@ -245,7 +305,7 @@ mod __parse__S {
     ) -> __Symbol<>
     {
         #[allow(clippy::manual_range_patterns)]match __token_index {
-            0 | 1 | 2 => __Symbol::Variant0(__token),
+            0 | 1 | 2 | 3 | 4 | 5 | 6 | 7 | 8 => __Symbol::Variant0(__token),
             _ => unreachable!(),
         }
     }
@@ -270,7 +330,7 @@ mod __parse__S {
             }
             2 => {
                 __state_machine::SimulatedReduce::Reduce {
-                    states_to_pop: 2,
+                    states_to_pop: 1,
                     nonterminal_produced: 2,
                 }
             }
@@ -282,46 +342,52 @@ mod __parse__S {
             }
             4 => {
                 __state_machine::SimulatedReduce::Reduce {
-                    states_to_pop: 4,
-                    nonterminal_produced: 2,
+                    states_to_pop: 1,
+                    nonterminal_produced: 3,
                 }
             }
             5 => {
                 __state_machine::SimulatedReduce::Reduce {
-                    states_to_pop: 5,
-                    nonterminal_produced: 2,
+                    states_to_pop: 0,
+                    nonterminal_produced: 4,
                 }
             }
             6 => {
                 __state_machine::SimulatedReduce::Reduce {
-                    states_to_pop: 1,
-                    nonterminal_produced: 3,
+                    states_to_pop: 2,
+                    nonterminal_produced: 4,
                 }
             }
             7 => {
                 __state_machine::SimulatedReduce::Reduce {
-                    states_to_pop: 2,
-                    nonterminal_produced: 3,
+                    states_to_pop: 4,
+                    nonterminal_produced: 5,
                 }
             }
             8 => {
                 __state_machine::SimulatedReduce::Reduce {
-                    states_to_pop: 1,
-                    nonterminal_produced: 4,
+                    states_to_pop: 3,
+                    nonterminal_produced: 5,
                 }
             }
-            9 => __state_machine::SimulatedReduce::Accept,
+            9 => {
+                __state_machine::SimulatedReduce::Reduce {
+                    states_to_pop: 7,
+                    nonterminal_produced: 5,
+                }
+            }
+            10 => __state_machine::SimulatedReduce::Accept,
             _ => panic!("invalid reduction index {__reduce_index}")
         }
     }
-    pub struct SParser {
+    pub struct PParser {
         _priv: (),
     }
 
-    impl Default for SParser { fn default() -> Self { Self::new() } }
-    impl SParser {
-        pub fn new() -> SParser {
-            SParser {
+    impl Default for PParser { fn default() -> Self { Self::new() } }
+    impl PParser {
+        pub fn new() -> PParser {
+            PParser {
                 _priv: (),
             }
         }
@@ -394,107 +460,31 @@ mod __parse__S {
                 __reduce1(__lookahead_start, __symbols, core::marker::PhantomData::<()>)
             }
             2 => {
-                // S = "x", Y => ActionFn(18);
-                assert!(__symbols.len() >= 2);
-                let __sym1 = __pop_Variant2(__symbols);
-                let __sym0 = __pop_Variant0(__symbols);
-                let __start = __sym0.0.clone();
-                let __end = __sym1.2.clone();
-                let __nt = match super::__action18::<>(__sym0, __sym1) {
-                    Ok(v) => v,
-                    Err(e) => return Some(Err(e)),
-                };
-                __symbols.push((__start, __Symbol::Variant2(__nt), __end));
-                (2, 2)
+                __reduce2(__lookahead_start, __symbols, core::marker::PhantomData::<()>)
             }
             3 => {
-                // S = "x", "x", Y => ActionFn(19);
-                assert!(__symbols.len() >= 3);
-                let __sym2 = __pop_Variant2(__symbols);
-                let __sym1 = __pop_Variant0(__symbols);
-                let __sym0 = __pop_Variant0(__symbols);
-                let __start = __sym0.0.clone();
-                let __end = __sym2.2.clone();
-                let __nt = match super::__action19::<>(__sym0, __sym1, __sym2) {
-                    Ok(v) => v,
-                    Err(e) => return Some(Err(e)),
-                };
-                __symbols.push((__start, __Symbol::Variant2(__nt), __end));
-                (3, 2)
+                __reduce3(__lookahead_start, __symbols, core::marker::PhantomData::<()>)
             }
             4 => {
-                // S = S, "z", "x", Y => ActionFn(20);
-                assert!(__symbols.len() >= 4);
-                let __sym3 = __pop_Variant2(__symbols);
-                let __sym2 = __pop_Variant0(__symbols);
-                let __sym1 = __pop_Variant0(__symbols);
-                let __sym0 = __pop_Variant2(__symbols);
-                let __start = __sym0.0.clone();
-                let __end = __sym3.2.clone();
-                let __nt = match super::__action20::<>(__sym0, __sym1, __sym2, __sym3) {
-                    Ok(v) => v,
-                    Err(e) => return Some(Err(e)),
-                };
-                __symbols.push((__start, __Symbol::Variant2(__nt), __end));
-                (4, 2)
+                __reduce4(__lookahead_start, __symbols, core::marker::PhantomData::<()>)
             }
             5 => {
-                // S = S, "z", "x", "x", Y => ActionFn(21);
-                assert!(__symbols.len() >= 5);
-                let __sym4 = __pop_Variant2(__symbols);
-                let __sym3 = __pop_Variant0(__symbols);
-                let __sym2 = __pop_Variant0(__symbols);
-                let __sym1 = __pop_Variant0(__symbols);
-                let __sym0 = __pop_Variant2(__symbols);
-                let __start = __sym0.0.clone();
-                let __end = __sym4.2.clone();
-                let __nt = match super::__action21::<>(__sym0, __sym1, __sym2, __sym3, __sym4) {
-                    Ok(v) => v,
-                    Err(e) => return Some(Err(e)),
-                };
-                __symbols.push((__start, __Symbol::Variant2(__nt), __end));
-                (5, 2)
+                __reduce5(__lookahead_start, __symbols, core::marker::PhantomData::<()>)
             }
             6 => {
-                // X = "x" => ActionFn(15);
-                let __sym0 = __pop_Variant0(__symbols);
-                let __start = __sym0.0.clone();
-                let __end = __sym0.2.clone();
-                let __nt = match super::__action15::<>(__sym0) {
-                    Ok(v) => v,
-                    Err(e) => return Some(Err(e)),
-                };
-                __symbols.push((__start, __Symbol::Variant2(__nt), __end));
-                (1, 3)
+                __reduce6(__lookahead_start, __symbols, core::marker::PhantomData::<()>)
             }
             7 => {
-                // X = "x", "x" => ActionFn(16);
-                assert!(__symbols.len() >= 2);
-                let __sym1 = __pop_Variant0(__symbols);
-                let __sym0 = __pop_Variant0(__symbols);
-                let __start = __sym0.0.clone();
-                let __end = __sym1.2.clone();
-                let __nt = match super::__action16::<>(__sym0, __sym1) {
-                    Ok(v) => v,
-                    Err(e) => return Some(Err(e)),
-                };
-                __symbols.push((__start, __Symbol::Variant2(__nt), __end));
-                (2, 3)
+                __reduce7(__lookahead_start, __symbols, core::marker::PhantomData::<()>)
             }
             8 => {
-                // Y = "y" => ActionFn(17);
-                let __sym0 = __pop_Variant0(__symbols);
-                let __start = __sym0.0.clone();
-                let __end = __sym0.2.clone();
-                let __nt = match super::__action17::<>(__sym0) {
-                    Ok(v) => v,
-                    Err(e) => return Some(Err(e)),
-                };
-                __symbols.push((__start, __Symbol::Variant2(__nt), __end));
-                (1, 4)
+                __reduce8(__lookahead_start, __symbols, core::marker::PhantomData::<()>)
             }
             9 => {
-                // __S = S => ActionFn(0);
+                __reduce9(__lookahead_start, __symbols, core::marker::PhantomData::<()>)
+            }
+            10 => {
+                // __P = P => ActionFn(0);
                 let __sym0 = __pop_Variant2(__symbols);
                 let __start = __sym0.0.clone();
                 let __end = __sym0.2.clone();
@@ -551,10 +541,10 @@ mod __parse__S {
         _: core::marker::PhantomData<()>,
     ) -> (usize, usize)
     {
-        // @L =  => ActionFn(7);
+        // @L =  => ActionFn(10);
         let __start = __lookahead_start.cloned().or_else(|| __symbols.last().map(|s| s.2.clone())).unwrap_or_default();
         let __end = __start.clone();
-        let __nt = super::__action7::<>(&__start, &__end);
+        let __nt = super::__action10::<>(&__start, &__end);
         __symbols.push((__start, __Symbol::Variant1(__nt), __end));
         (0, 0)
     }
@@ -565,16 +555,154 @@ mod __parse__S {
         _: core::marker::PhantomData<()>,
     ) -> (usize, usize)
     {
-        // @R =  => ActionFn(6);
+        // @R =  => ActionFn(9);
         let __start = __lookahead_start.cloned().or_else(|| __symbols.last().map(|s| s.2.clone())).unwrap_or_default();
         let __end = __start.clone();
-        let __nt = super::__action6::<>(&__start, &__end);
+        let __nt = super::__action9::<>(&__start, &__end);
         __symbols.push((__start, __Symbol::Variant1(__nt), __end));
         (0, 1)
     }
+    fn __reduce2<
+    >(
+        __lookahead_start: Option<&i64>,
+        __symbols: &mut alloc::vec::Vec<(i64,__Symbol<>,i64)>,
+        _: core::marker::PhantomData<()>,
+    ) -> (usize, usize)
+    {
+        // Ex = "id" => ActionFn(19);
+        let __sym0 = __pop_Variant0(__symbols);
+        let __start = __sym0.0.clone();
+        let __end = __sym0.2.clone();
+        let __nt = super::__action19::<>(__sym0);
+        __symbols.push((__start, __Symbol::Variant2(__nt), __end));
+        (1, 2)
+    }
+    fn __reduce3<
+    >(
+        __lookahead_start: Option<&i64>,
+        __symbols: &mut alloc::vec::Vec<(i64,__Symbol<>,i64)>,
+        _: core::marker::PhantomData<()>,
+    ) -> (usize, usize)
+    {
+        // Ex = "(", Ex, ")" => ActionFn(20);
+        assert!(__symbols.len() >= 3);
+        let __sym2 = __pop_Variant0(__symbols);
+        let __sym1 = __pop_Variant2(__symbols);
+        let __sym0 = __pop_Variant0(__symbols);
+        let __start = __sym0.0.clone();
+        let __end = __sym2.2.clone();
+        let __nt = super::__action20::<>(__sym0, __sym1, __sym2);
+        __symbols.push((__start, __Symbol::Variant2(__nt), __end));
+        (3, 2)
+    }
+    fn __reduce4<
+    >(
+        __lookahead_start: Option<&i64>,
+        __symbols: &mut alloc::vec::Vec<(i64,__Symbol<>,i64)>,
+        _: core::marker::PhantomData<()>,
+    ) -> (usize, usize)
+    {
+        // P = Ss => ActionFn(21);
+        let __sym0 = __pop_Variant2(__symbols);
+        let __start = __sym0.0.clone();
+        let __end = __sym0.2.clone();
+        let __nt = super::__action21::<>(__sym0);
+        __symbols.push((__start, __Symbol::Variant2(__nt), __end));
+        (1, 3)
+    }
+    fn __reduce5<
+    >(
+        __lookahead_start: Option<&i64>,
+        __symbols: &mut alloc::vec::Vec<(i64,__Symbol<>,i64)>,
+        _: core::marker::PhantomData<()>,
+    ) -> (usize, usize)
+    {
+        // Ss =  => ActionFn(22);
+        let __start = __lookahead_start.cloned().or_else(|| __symbols.last().map(|s| s.2.clone())).unwrap_or_default();
+        let __end = __start.clone();
+        let __nt = super::__action22::<>(&__start, &__end);
+        __symbols.push((__start, __Symbol::Variant2(__nt), __end));
+        (0, 4)
+    }
+    fn __reduce6<
+    >(
+        __lookahead_start: Option<&i64>,
+        __symbols: &mut alloc::vec::Vec<(i64,__Symbol<>,i64)>,
+        _: core::marker::PhantomData<()>,
+    ) -> (usize, usize)
+    {
+        // Ss = Ss, St => ActionFn(23);
+        assert!(__symbols.len() >= 2);
+        let __sym1 = __pop_Variant2(__symbols);
+        let __sym0 = __pop_Variant2(__symbols);
+        let __start = __sym0.0.clone();
+        let __end = __sym1.2.clone();
+        let __nt = super::__action23::<>(__sym0, __sym1);
+        __symbols.push((__start, __Symbol::Variant2(__nt), __end));
+        (2, 4)
+    }
+    fn __reduce7<
+    >(
+        __lookahead_start: Option<&i64>,
+        __symbols: &mut alloc::vec::Vec<(i64,__Symbol<>,i64)>,
+        _: core::marker::PhantomData<()>,
+    ) -> (usize, usize)
+    {
+        // St = "id", "=", Ex, ";" => ActionFn(24);
+        assert!(__symbols.len() >= 4);
+        let __sym3 = __pop_Variant0(__symbols);
+        let __sym2 = __pop_Variant2(__symbols);
+        let __sym1 = __pop_Variant0(__symbols);
+        let __sym0 = __pop_Variant0(__symbols);
+        let __start = __sym0.0.clone();
+        let __end = __sym3.2.clone();
+        let __nt = super::__action24::<>(__sym0, __sym1, __sym2, __sym3);
+        __symbols.push((__start, __Symbol::Variant2(__nt), __end));
+        (4, 5)
+    }
+    fn __reduce8<
+    >(
+        __lookahead_start: Option<&i64>,
+        __symbols: &mut alloc::vec::Vec<(i64,__Symbol<>,i64)>,
+        _: core::marker::PhantomData<()>,
+    ) -> (usize, usize)
+    {
+        // St = "{", Ss, "}" => ActionFn(25);
+        assert!(__symbols.len() >= 3);
+        let __sym2 = __pop_Variant0(__symbols);
+        let __sym1 = __pop_Variant2(__symbols);
+        let __sym0 = __pop_Variant0(__symbols);
+        let __start = __sym0.0.clone();
+        let __end = __sym2.2.clone();
+        let __nt = super::__action25::<>(__sym0, __sym1, __sym2);
+        __symbols.push((__start, __Symbol::Variant2(__nt), __end));
+        (3, 5)
+    }
+    fn __reduce9<
+    >(
+        __lookahead_start: Option<&i64>,
+        __symbols: &mut alloc::vec::Vec<(i64,__Symbol<>,i64)>,
+        _: core::marker::PhantomData<()>,
+    ) -> (usize, usize)
+    {
+        // St = "if", "(", Ex, ")", St, "else", St => ActionFn(26);
+        assert!(__symbols.len() >= 7);
+        let __sym6 = __pop_Variant2(__symbols);
+        let __sym5 = __pop_Variant0(__symbols);
+        let __sym4 = __pop_Variant2(__symbols);
+        let __sym3 = __pop_Variant0(__symbols);
+        let __sym2 = __pop_Variant2(__symbols);
+        let __sym1 = __pop_Variant0(__symbols);
+        let __sym0 = __pop_Variant0(__symbols);
+        let __start = __sym0.0.clone();
+        let __end = __sym6.2.clone();
+        let __nt = super::__action26::<>(__sym0, __sym1, __sym2, __sym3, __sym4, __sym5, __sym6);
+        __symbols.push((__start, __Symbol::Variant2(__nt), __end));
+        (7, 5)
+    }
 }
 #[allow(unused_imports)]
-pub use self::__parse__S::SParser;
+pub use self::__parse__P::PParser;
 
 #[allow(clippy::too_many_arguments, clippy::needless_lifetimes, clippy::just_underscores_and_digits, clippy::extra_unused_type_parameters)]
 fn __action0<
@@ -590,63 +718,114 @@ fn __action1<
 >(
     (_, l, _): (i64, i64, i64),
     (_, c0, _): (i64, Tree, i64),
-    (_, c1, _): (i64, Tree, i64),
     (_, r, _): (i64, i64, i64),
 ) -> Tree
 {
-    node("S#0", l, r, vec![Tree::from(c0), Tree::from(c1)])
+    node("P#0", l, r, vec![Tree::from(c0)])
 }
 
 #[allow(clippy::too_many_arguments, clippy::needless_lifetimes, clippy::just_underscores_and_digits, clippy::extra_unused_type_parameters)]
 fn __action2<
 >(
     (_, l, _): (i64, i64, i64),
-    (_, c0, _): (i64, Tree, i64),
-    (_, c1, _): (i64, Tok, i64),
-    (_, c2, _): (i64, Tree, i64),
-    (_, c3, _): (i64, Tree, i64),
+    (_, pL0, _): (i64, i64, i64),
     (_, r, _): (i64, i64, i64),
 ) -> Tree
 {
-    node("S#1", l, r, vec![Tree::from(c0), Tree::from(c1), Tree::from(c2), Tree::from(c3)])
+    { probe("Ss#0", 0, 'L', pL0); node("Ss#0", l, r, vec![]) }
 }
 
 #[allow(clippy::too_many_arguments, clippy::needless_lifetimes, clippy::just_underscores_and_digits, clippy::extra_unused_type_parameters)]
 fn __action3<
 >(
     (_, l, _): (i64, i64, i64),
-    (_, c0, _): (i64, Tok, i64),
+    (_, pL0, _): (i64, i64, i64),
+    (_, c0, _): (i64, Tree, i64),
+    (_, c1, _): (i64, Tree, i64),
     (_, r, _): (i64, i64, i64),
-) -> Result<Tree,__lalrpop_util::ParseError<i64,Tok,u64>>
+) -> Tree
 {
-    fallible("X#0", l, r, vec![Tree::from(c0)])
+    { probe("Ss#1", 0, 'L', pL0); node("Ss#1", l, r, vec![Tree::from(c0), Tree::from(c1)]) }
 }
 
 #[allow(clippy::too_many_arguments, clippy::needless_lifetimes, clippy::just_underscores_and_digits, clippy::extra_unused_type_parameters)]
 fn __action4<
 >(
     (_, l, _): (i64, i64, i64),
+    (_, pR0, _): (i64, i64, i64),
     (_, c0, _): (i64, Tok, i64),
     (_, c1, _): (i64, Tok, i64),
+    (_, c2, _): (i64, Tree, i64),
+    (_, c3, _): (i64, Tok, i64),
+    (_, pR4, _): (i64, i64, i64),
     (_, r, _): (i64, i64, i64),
-) -> Result<Tree,__lalrpop_util::ParseError<i64,Tok,u64>>
+) -> Tree
 {
-    fallible("X#1", l, r, vec![Tree::from(c0), Tree::from(c1)])
+    { probe("St#0", 0, 'R', pR0); probe("St#0", 4, 'R', pR4); node("St#0", l, r, vec![Tree::from(c0), Tree::from(c1), Tree::from(c2), Tree::from(c3)]) }
 }
 
 #[allow(clippy::too_many_arguments, clippy::needless_lifetimes, clippy::just_underscores_and_digits, clippy::extra_unused_type_parameters)]
 fn __action5<
 >(
     (_, l, _): (i64, i64, i64),
+    (_, pL0, _): (i64, i64, i64),
+    (_, c0, _): (i64, Tok, i64),
+    (_, pL1, _): (i64, i64, i64),
+    (_, c1, _): (i64, Tree, i64),
+    (_, c2, _): (i64, Tok, i64),
+    (_, r, _): (i64, i64, i64),
+) -> Tree
+{
+    { probe("St#1", 0, 'L', pL0); probe("St#1", 1, 'L', pL1); node("St#1", l, r, vec![Tree::from(c0), Tree::from(c1), Tree::from(c2)]) }
+}
+
+#[allow(clippy::too_many_arguments, clippy::needless_lifetimes, clippy::just_underscores_and_digits, clippy::extra_unused_type_parameters)]
+fn __action6<
+>(
+    (_, l, _): (i64, i64, i64),
+    (_, pL0, _): (i64, i64, i64),
+    (_, c0, _): (i64, Tok, i64),
+    (_, pL1, _): (i64, i64, i64),
+    (_, c1, _): (i64, Tok, i64),
+    (_, c2, _): (i64, Tree, i64),
+    (_, c3, _): (i64, Tok, i64),
+    (_, c4, _): (i64, Tree, i64),
+    (_, pR5, _): (i64, i64, i64),
+    (_, c5, _): (i64, Tok, i64),
+    (_, pL6, _): (i64, i64, i64),
+    (_, c6, _): (i64, Tree, i64),
+    (_, r, _): (i64, i64, i64),
+) -> Tree
+{
+    { probe("St#2", 0, 'L', pL0); probe("St#2", 1, 'L', pL1); probe("St#2", 5, 'R', pR5); probe("St#2", 6, 'L', pL6); node("St#2", l, r, vec![Tree::from(c0), Tree::from(c1), Tree::from(c2), Tree::from(c3), Tree::from(c4), Tree::from(c5), Tree::from(c6)]) }
+}
+
+#[allow(clippy::too_many_arguments, clippy::needless_lifetimes, clippy::just_underscores_and_digits, clippy::extra_unused_type_parameters)]
+fn __action7<
+>(
+    (_, l, _): (i64, i64, i64),
     (_, c0, _): (i64, Tok, i64),
     (_, r, _): (i64, i64, i64),
-) -> Result<Tree,__lalrpop_util::ParseError<i64,Tok,u64>>
+) -> Tree
 {
-    fallible("Y#0", l, r, vec![Tree::from(c0)])
+    node("Ex#0", l, r, vec![Tree::from(c0)])
+}
+
+#[allow(clippy::too_many_arguments, clippy::needless_lifetimes, clippy::just_underscores_and_digits, clippy::extra_unused_type_parameters)]
+fn __action8<
+>(
+    (_, l, _): (i64, i64, i64),
+    (_, c0, _): (i64, Tok, i64),
+    (_, c1, _): (i64, Tree, i64),
+    (_, c2, _): (i64, Tok, i64),
+    (_, r, _): (i64, i64, i64),
+) -> Tree
+{
+    node("Ex#1", l, r, vec![Tree::from(c0), Tree::from(c1), Tree::from(c2)])
 }
 
 #[allow(clippy::needless_lifetimes, clippy::clone_on_copy)]
-fn __action6<
+fn __action9<
 >(
     __lookbehind: &i64,
     __lookahead: &i64,
@@ -656,7 +835,7 @@ fn __action6<
 }
 
 #[allow(clippy::needless_lifetimes, clippy::clone_on_copy)]
-fn __action7<
+fn __action10<
 >(
     __lookbehind: &i64,
     __lookahead: &i64,
@@ -667,16 +846,63 @@ fn __action7<
 
 #[allow(clippy::too_many_arguments, clippy::needless_lifetimes,
     clippy::just_underscores_and_digits, clippy::clone_on_copy, clippy::unit_arg)]
-fn __action8<
+fn __action11<
 >(
-    __0: (i64, Tree, i64),
-    __1: (i64, Tree, i64),
-    __2: (i64, i64, i64),
+    __0: (i64, Tok, i64),
+    __1: (i64, i64, i64),
 ) -> Tree
 {
     let __start0 = __0.0.clone();
     let __end0 = __0.0.clone();
-    let __temp0 = __action7(
+    let __temp0 = __action10(
+        &__start0,
+        &__end0,
+    );
+    let __temp0 = (__start0, __temp0, __end0);
+    __action7(
+        __temp0,
+        __0,
+        __1,
+    )
+}
+
+#[allow(clippy::too_many_arguments, clippy::needless_lifetimes,
+    clippy::just_underscores_and_digits, clippy::clone_on_copy, clippy::unit_arg)]
+fn __action12<
+>(
+    __0: (i64, Tok, i64),
+    __1: (i64, Tree, i64),
+    __2: (i64, Tok, i64),
+    __3: (i64, i64, i64),
+) -> Tree
+{
+    let __start0 = __0.0.clone();
+    let __end0 = __0.0.clone();
+    let __temp0 = __action10(
+        &__start0,
+        &__end0,
+    );
+    let __temp0 = (__start0, __temp0, __end0);
+    __action8(
+        __temp0,
+        __0,
+        __1,
+        __2,
+        __3,
+    )
+}
+
+#[allow(clippy::too_many_arguments, clippy::needless_lifetimes,
+    clippy::just_underscores_and_digits, clippy::clone_on_copy, clippy::unit_arg)]
+fn __action13<
+>(
+    __0: (i64, Tree, i64),
+    __1: (i64, i64, i64),
+) -> Tree
+{
+    let __start0 = __0.0.clone();
+    let __end0 = __0.0.clone();
+    let __temp0 = __action10(
         &__start0,
         &__end0,
     );
@@ -685,72 +911,85 @@ fn __action8<
         __temp0,
         __0,
         __1,
-        __2,
     )
 }
 
 #[allow(clippy::too_many_arguments, clippy::needless_lifetimes,
     clippy::just_underscores_and_digits, clippy::clone_on_copy, clippy::unit_arg)]
-fn __action9<
+fn __action14<
 >(
-    __0: (i64, Tree, i64),
-    __1: (i64, Tok, i64),
-    __2: (i64, Tree, i64),
-    __3: (i64, Tree, i64),
-    __4: (i64, i64, i64),
+    __0: (i64, i64, i64),
 ) -> Tree
 {
     let __start0 = __0.0.clone();
     let __end0 = __0.0.clone();
-    let __temp0 = __action7(
+    let __start1 = __0.0.clone();
+    let __end1 = __0.0.clone();
+    let __temp0 = __action10(
         &__start0,
         &__end0,
     );
     let __temp0 = (__start0, __temp0, __end0);
+    let __temp1 = __action10(
+        &__start1,
+        &__end1,
+    );
+    let __temp1 = (__start1, __temp1, __end1);
     __action2(
         __temp0,
+        __temp1,
+        __0,
+    )
+}
+
+#[allow(clippy::too_many_arguments, clippy::needless_lifetimes,
+    clippy::just_underscores_and_digits, clippy::clone_on_copy, clippy::unit_arg)]
+fn __action15<
+>(
+    __0: (i64, Tree, i64),
+    __1: (i64, Tree, i64),
+    __2: (i64, i64, i64),
+) -> Tree
+{
+    let __start0 = __0.0.clone();
+    let __end0 = __0.0.clone();
+    let __start1 = __0.0.clone();
+    let __end1 = __0.0.clone();
+    let __temp0 = __action10(
+        &__start0,
+        &__end0,
+    );
+    let __temp0 = (__start0, __temp0, __end0);
+    let __temp1 = __action10(
+        &__start1,
+        &__end1,
+    );
+    let __temp1 = (__start1, __temp1, __end1);
+    __action3(
+        __temp0,
+        __temp1,
         __0,
         __1,
         __2,
-        __3,
-        __4,
     )
 }
 
 #[allow(clippy::too_many_arguments, clippy::needless_lifetimes,
     clippy::just_underscores_and_digits, clippy::clone_on_copy, clippy::unit_arg)]
-fn __action10<
+fn __action16<
 >(
-    __0: (i64, Tok, i64),
-    __1: (i64, i64, i64),
-) -> Result<Tree,__lalrpop_util::ParseError<i64,Tok,u64>>
-{
-    let __start0 = __0.0.clone();
-    let __end0 = __0.0.clone();
-    let __temp0 = __action7(
-        &__start0,
-        &__end0,
-    );
-    let __temp0 = (__start0, __temp0, __end0);
-    __action3(
-        __temp0,
-        __0,
-        __1,
-    )
-}
-
-#[allow(clippy::too_many_arguments, clippy::needless_lifetimes,
-    clippy::just_underscores_and_digits, clippy::clone_on_copy, clippy::unit_arg)]
-fn __action11<
->(
-    __0: (i64, Tok, i64),
+    __0: (i64, i64, i64),
     __1: (i64, Tok, i64),
-    __2: (i64, i64, i64),
-) -> Result<Tree,__lalrpop_util::ParseError<i64,Tok,u64>>
+    __2: (i64, Tok, i64),
+    __3: (i64, Tree, i64),
+    __4: (i64, Tok, i64),
+    __5: (i64, i64, i64),
+    __6: (i64, i64, i64),
+) -> Tree
 {
     let __start0 = __0.0.clone();
     let __end0 = __0.0.clone();
-    let __temp0 = __action7(
+    let __temp0 = __action10(
         &__start0,
         &__end0,
     );
@@ -760,118 +999,10 @@ fn __action11<
         __0,
         __1,
         __2,
-    )
-}
-
-#[allow(clippy::too_many_arguments, clippy::needless_lifetimes,
-    clippy::just_underscores_and_digits, clippy::clone_on_copy, clippy::unit_arg)]
-fn __action12<
->(
-    __0: (i64, Tok, i64),
-    __1: (i64, i64, i64),
-) -> Result<Tree,__lalrpop_util::ParseError<i64,Tok,u64>>
-{
-    let __start0 = __0.0.clone();
-    let __end0 = __0.0.clone();
-    let __temp0 = __action7(
-        &__start0,
-        &__end0,
-    );
-    let __temp0 = (__start0, __temp0, __end0);
-    __action5(
-        __temp0,
-        __0,
-        __1,
-    )
-}
-
-#[allow(clippy::too_many_arguments, clippy::needless_lifetimes,
-    clippy::just_underscores_and_digits, clippy::clone_on_copy, clippy::unit_arg)]
-fn __action13<
->(
-    __0: (i64, Tree, i64),
-    __1: (i64, Tree, i64),
-) -> Tree
-{
-    let __start0 = __1.2.clone();
-    let __end0 = __1.2.clone();
-    let __temp0 = __action6(
-        &__start0,
-        &__end0,
-    );
-    let __temp0 = (__start0, __temp0, __end0);
-    __action8(
-        __0,
-        __1,
-        __temp0,
-    )
-}
-
-#[allow(clippy::too_many_arguments, clippy::needless_lifetimes,
-    clippy::just_underscores_and_digits, clippy::clone_on_copy, clippy::unit_arg)]
-fn __action14<
->(
-    __0: (i64, Tree, i64),
-    __1: (i64, Tok, i64),
-    __2: (i64, Tree, i64),
-    __3: (i64, Tree, i64),
-) -> Tree
-{
-    let __start0 = __3.2.clone();
-    let __end0 = __3.2.clone();
-    let __temp0 = __action6(
-        &__start0,
-        &__end0,
-    );
-    let __temp0 = (__start0, __temp0, __end0);
-    __action9(
-        __0,
-        __1,
-        __2,
         __3,
-        __temp0,
-    )
-}
-
-#[allow(clippy::too_many_arguments, clippy::needless_lifetimes,
-    clippy::just_underscores_and_digits, clippy::clone_on_copy, clippy::unit_arg)]
-fn __action15<
->(
-    __0: (i64, Tok, i64),
-) -> Result<Tree,__lalrpop_util::ParseError<i64,Tok,u64>>
-{
-    let __start0 = __0.2.clone();
-    let __end0 = __0.2.clone();
-    let __temp0 = __action6(
-        &__start0,
-        &__end0,
-    );
-    let __temp0 = (__start0, __temp0, __end0);
-    __action10(
-        __0,
-        __temp0,
-    )
-}
-
-#[allow(clippy::too_many_arguments, clippy::needless_lifetimes,
-    clippy::just_underscores_and_digits, clippy::clone_on_copy, clippy::unit_arg)]
-fn __action16<
->(
-    __0: (i64, Tok, i64),
-    __1: (i64, Tok, i64),
-) -> Result<Tree,__lalrpop_util::ParseError<i64,Tok,u64>>
-{
-    let __start0 = __1.2.clone();
-    let __end0 = __1.2.clone();
-    let __temp0 = __action6(
-        &__start0,
-        &__end0,
-    );
-    let __temp0 = (__start0, __temp0, __end0);
-    __action11(
-        __0,
-        __1,
-        __temp0,
+        __4,
+        __5,
+        __6,
     )
 }
 
@@ -880,18 +1011,40 @@ fn __action16<
 fn __action17<
 >(
     __0: (i64, Tok, i64),
-) -> Result<Tree,__lalrpop_util::ParseError<i64,Tok,u64>>
+    __1: (i64, Tree, i64),
+    __2: (i64, Tok, i64),
+    __3: (i64, i64, i64),
+) -> Tree
 {
-    let __start0 = __0.2.clone();
-    let __end0 = __0.2.clone();
-    let __temp0 = __action6(
+    let __start0 = __0.0.clone();
+    let __end0 = __0.0.clone();
+    let __start1 = __0.0.clone();
+    let __end1 = __0.0.clone();
+    let __start2 = __0.2.clone();
+    let __end2 = __1.0.clone();
+    let __temp0 = __action10(
         &__start0,
         &__end0,
     );
     let __temp0 = (__start0, __temp0, __end0);
-    __action12(
-        __0,
+    let __temp1 = __action10(
+        &__start1,
+        &__end1,
+    );
+    let __temp1 = (__start1, __temp1, __end1);
+    let __temp2 = __action10(
+        &__start2,
+        &__end2,
+    );
+    let __temp2 = (__start2, __temp2, __end2);
+    __action5(
         __temp0,
+        __temp1,
+        __0,
+        __temp2,
+        __1,
+        __2,
+        __3,
     )
 }
 
@@ -900,19 +1053,59 @@ fn __action17<
 fn __action18<
 >(
     __0: (i64, Tok, i64),
-    __1: (i64, Tree, i64),
-) -> Result<Tree,__lalrpop_util::ParseError<i64,Tok,u64>>
+    __1: (i64, Tok, i64),
+    __2: (i64, Tree, i64),
+    __3: (i64, Tok, i64),
+    __4: (i64, Tree, i64),
+    __5: (i64, i64, i64),
+    __6: (i64, Tok, i64),
+    __7: (i64, Tree, i64),
+    __8: (i64, i64, i64),
+) -> Tree
 {
     let __start0 = __0.0.clone();
-    let __end0 = __0.2.clone();
-    let __temp0 = __action15(
-        __0,
-    )?;
+    let __end0 = __0.0.clone();
+    let __start1 = __0.0.clone();
+    let __end1 = __0.0.clone();
+    let __start2 = __0.2.clone();
+    let __end2 = __1.0.clone();
+    let __start3 = __6.2.clone();
+    let __end3 = __7.0.clone();
+    let __temp0 = __action10(
+        &__start0,
+        &__end0,
+    );
     let __temp0 = (__start0, __temp0, __end0);
-    Ok(__action13(
+    let __temp1 = __action10(
+        &__start1,
+        &__end1,
+    );
+    let __temp1 = (__start1, __temp1, __end1);
+    let __temp2 = __action10(
+        &__start2,
+        &__end2,
+    );
+    let __temp2 = (__start2, __temp2, __end2);
+    let __temp3 = __action10(
+        &__start3,
+        &__end3,
+    );
+    let __temp3 = (__start3, __temp3, __end3);
+    __action6(
         __temp0,
+        __temp1,
+        __0,
+        __temp2,
         __1,
-    ))
+        __2,
+        __3,
+        __4,
+        __5,
+        __6,
+        __temp3,
+        __7,
+        __8,
+    )
 }
 
 #[allow(clippy::too_many_arguments, clippy::needless_lifetimes,
@@ -920,45 +1113,43 @@ fn __action18<
 fn __action19<
 >(
     __0: (i64, Tok, i64),
-    __1: (i64, Tok, i64),
-    __2: (i64, Tree, i64),
-) -> Result<Tree,__lalrpop_util::ParseError<i64,Tok,u64>>
+) -> Tree
 {
-    let __start0 = __0.0.clone();
-    let __end0 = __1.2.clone();
-    let __temp0 = __action16(
-        __0,
-        __1,
-    )?;
+    let __start0 = __0.2.clone();
+    let __end0 = __0.2.clone();
+    let __temp0 = __action9(
+        &__start0,
+        &__end0,
+    );
     let __temp0 = (__start0, __temp0, __end0);
-    Ok(__action13(
+    __action11(
+        __0,
         __temp0,
-        __2,
-    ))
+    )
 }
 
 #[allow(clippy::too_many_arguments, clippy::needless_lifetimes,
     clippy::just_underscores_and_digits, clippy::clone_on_copy, clippy::unit_arg)]
 fn __action20<
 >(
-    __0: (i64, Tree, i64),
-    __1: (i64, Tok, i64),
+    __0: (i64, Tok, i64),
+    __1: (i64, Tree, i64),
     __2: (i64, Tok, i64),
-    __3: (i64, Tree, i64),
-) -> Result<Tree,__lalrpop_util::ParseError<i64,Tok,u64>>
+) -> Tree
 {
-    let __start0 = __2.0.clone();
+    let __start0 = __2.2.clone();
     let __end0 = __2.2.clone();
-    let __temp0 = __action15(
-        __2,
-    )?;
+    let __temp0 = __action9(
+        &__start0,
+        &__end0,
+    );
     let __temp0 = (__start0, __temp0, __end0);
-    Ok(__action14(
+    __action12(
         __0,
         __1,
+        __2,
         __temp0,
-        __3,
-    ))
+    )
 }
 
 #[allow(clippy::too_many_arguments, clippy::needless_lifetimes,
@@ -966,25 +1157,167 @@ fn __action20<
 fn __action21<
 >(
     __0: (i64, Tree, i64),
-    __1: (i64, Tok, i64),
-    __2: (i64, Tok, i64),
-    __3: (i64, Tok, i64),
-    __4: (i64, Tree, i64),
-) -> Result<Tree,__lalrpop_util::ParseError<i64,Tok,u64>>
+) -> Tree
 {
-    let __start0 = __2.0.clone();
-    let __end0 = __3.2.clone();
-    let __temp0 = __action16(
-        __2,
-        __3,
-    )?;
+    let __start0 = __0.2.clone();
+    let __end0 = __0.2.clone();
+    let __temp0 = __action9(
+        &__start0,
+        &__end0,
+    );
     let __temp0 = (__start0, __temp0, __end0);
-    Ok(__action14(
+    __action13(
+        __0,
+        __temp0,
+    )
+}
+
+#[allow(clippy::too_many_arguments, clippy::needless_lifetimes,
+    clippy::just_underscores_and_digits, clippy::clone_on_copy, clippy::unit_arg)]
+fn __action22<
+>(
+    __lookbehind: &i64,
+    __lookahead: &i64,
+) -> Tree
+{
+    let __start0 = __lookbehind.clone();
+    let __end0 = __lookahead.clone();
+    let __temp0 = __action9(
+        &__start0,
+        &__end0,
+    );
+    let __temp0 = (__start0, __temp0, __end0);
+    __action14(
+        __temp0,
+    )
+}
+
+#[allow(clippy::too_many_arguments, clippy::needless_lifetimes,
+    clippy::just_underscores_and_digits, clippy::clone_on_copy, clippy::unit_arg)]
+fn __action23<
+>(
+    __0: (i64, Tree, i64),
+    __1: (i64, Tree, i64),
+) -> Tree
+{
+    let __start0 = __1.2.clone();
+    let __end0 = __1.2.clone();
+    let __temp0 = __action9(
+        &__start0,
+        &__end0,
+    );
+    let __temp0 = (__start0, __temp0, __end0);
+    __action15(
         __0,
         __1,
         __temp0,
+    )
+}
+
+#[allow(clippy::too_many_arguments, clippy::needless_lifetimes,
+    clippy::just_underscores_and_digits, clippy::clone_on_copy, clippy::unit_arg)]
+fn __action24<
+>(
+    __0: (i64, Tok, i64),
+    __1: (i64, Tok, i64),
+    __2: (i64, Tree, i64),
+    __3: (i64, Tok, i64),
+) -> Tree
+{
+    let __start0 = __0.0.clone();
+    let __end0 = __0.0.clone();
+    let __start1 = __3.2.clone();
+    let __end1 = __3.2.clone();
+    let __start2 = __3.2.clone();
+    let __end2 = __3.2.clone();
+    let __temp0 = __action9(
+        &__start0,
+        &__end0,
+    );
+    let __temp0 = (__start0, __temp0, __end0);
+    let __temp1 = __action9(
+        &__start1,
+        &__end1,
+    );
+    let __temp1 = (__start1, __temp1, __end1);
+    let __temp2 = __action9(
+        &__start2,
+        &__end2,
+    );
+    let __temp2 = (__start2, __temp2, __end2);
+    __action16(
+        __temp0,
+        __0,
+        __1,
+        __2,
+        __3,
+        __temp1,
+        __temp2,
+    )
+}
+
+#[allow(clippy::too_many_arguments, clippy::needless_lifetimes,
+    clippy::just_underscores_and_digits, clippy::clone_on_copy, clippy::unit_arg)]
+fn __action25<
+>(
+    __0: (i64, Tok, i64),
+    __1: (i64, Tree, i64),
+    __2: (i64, Tok, i64),
+) -> Tree
+{
+    let __start0 = __2.2.clone();
+    let __end0 = __2.2.clone();
+    let __temp0 = __action9(
+        &__start0,
+        &__end0,
+    );
+    let __temp0 = (__start0, __temp0, __end0);
+    __action17(
+        __0,
+        __1,
+        __2,
+        __temp0,
+    )
+}
+
+#[allow(clippy::too_many_arguments, clippy::needless_lifetimes,
+    clippy::just_underscores_and_digits, clippy::clone_on_copy, clippy::unit_arg)]
+fn __action26<
+>(
+    __0: (i64, Tok, i64),
+    __1: (i64, Tok, i64),
+    __2: (i64, Tree, i64),
+    __3: (i64, Tok, i64),
+    __4: (i64, Tree, i64),
+    __5: (i64, Tok, i64),
+    __6: (i64, Tree, i64),
+) -> Tree
+{
+    let __start0 = __4.2.clone();
+    let __end0 = __5.0.clone();
+    let __start1 = __6.2.clone();
+    let __end1 = __6.2.clone();
+    let __temp0 = __action9(
+        &__start0,
+        &__end0,
+    );
+    let __temp0 = (__start0, __temp0, __end0);
+    let __temp1 = __action9(
+        &__start1,
+        &__end1,
+    );
+    let __temp1 = (__start1, __temp1, __end1);
+    __action18(
+        __0,
+        __1,
+        __2,
+        __3,
         __4,
-    ))
+        __temp0,
+        __5,
+        __6,
+        __temp1,
+    )
 }
 
 #[allow(clippy::type_complexity, dead_code)]
